@@ -25,14 +25,21 @@ template <typename InitialStateIds>
 class history_impl<front::no_history, InitialStateIds>
 {
   public:
+    // Called before the SM's entry action, so that events enqueued
+    // by the entry action itself are kept.
     template <typename StateMachine, typename Event>
-    void on_entry(StateMachine& sm, const Event&)
+    void reset_event_pool(StateMachine& sm, const Event&)
     {
-        sm.m_active_state_ids = value_array<InitialStateIds>;
         if constexpr (StateMachine::event_pool_member::value)
         {
             sm.get_event_pool().events.clear();
         }
+    }
+
+    template <typename StateMachine, typename Event>
+    void on_entry(StateMachine& sm, const Event&)
+    {
+        sm.m_active_state_ids = value_array<InitialStateIds>;
     }
 
     template <typename StateMachine, typename Event, typename Visitor>
@@ -64,6 +71,11 @@ template <typename InitialStateIds>
 class history_impl<front::always_shallow_history, InitialStateIds>
 {
 public:
+    template <typename StateMachine, typename Event>
+    void reset_event_pool(StateMachine&, const Event&)
+    {
+    }
+
     template <typename StateMachine, typename Event>
     void on_entry(StateMachine& sm, const Event&)
     {
@@ -100,6 +112,18 @@ class history_impl<front::shallow_history<Events...>, InitialStateIds>
     using events = mp11::mp_list<Events...>;
 
 public:
+    // Called before the SM's entry action, so that events enqueued
+    // by the entry action itself are kept.
+    template <typename StateMachine, typename Event>
+    void reset_event_pool(StateMachine& sm, const Event&)
+    {
+        if constexpr (!mp11::mp_contains<events, Event>::value &&
+                      StateMachine::event_pool_member::value)
+        {
+            sm.get_event_pool().events.clear();
+        }
+    }
+
     template <typename StateMachine, typename Event>
     void on_entry(StateMachine& sm, const Event&)
     {
@@ -110,10 +134,6 @@ public:
         else
         {
             sm.m_active_state_ids = value_array<InitialStateIds>;
-            if constexpr (StateMachine::event_pool_member::value)
-            {
-                sm.get_event_pool().events.clear();
-            }
         }
     }
 
